@@ -152,6 +152,12 @@ fn main() {
         out.count("trace_events", trace.len() as u64);
     }
     shared_reader_schedules(&mut rng, &mut out, if thorough { 200 } else { 40 });
+    // directed: a merge that outlives its writer; an uncommitted delete_all_documents followed by a policy merge
+    for k in 0..(if thorough { 12 } else { 4 }) {
+        for (ok, d) in e1::merge_outlives_writer(k % 2 == 1) { out.spec_checked(ok, d); }
+        out.count("merge_outlives_writer_scenarios", 1);
+    }
+    for (ok, d) in e1::uncommitted_delete_all_then_policy_merge() { out.spec_checked(ok, d); }
     mmap_lock_schedules(&mut rng, &mut out, if thorough { 60 } else { 12 });
     lockfile_meta_lock_schedules(&mut rng, &mut out, if thorough { 200 } else { 40 });
     out.finish(json!({"tier": args.tier, "seed": args.seed}));
